@@ -58,10 +58,19 @@ def showEntry (t : Table) (e : Entry) : String :=
     | none => "none|none"
   e.name ++ "|" ++ showChain e.fct ++ "|" ++ e.inv ++ "|" ++ gi ++ "|" ++ rc
 
-def step : List String → String
-  | ["table"] => ";".intercalate (Gen.C13.table.map (showEntry Gen.C13.table))
-  -- perm F <y> <lin> <q>: float arrays (NaN allowed); perm P <y> <lin> <q>: integer / string arrays
-  | ["perm", kind, y, lin, q] =>
+/-- `closest=True`: the search used by the driver — numeric labels by absolute difference, first
+best key in dictionary order (the real `_find_closest` refuses string labels) -/
+def labCloser (u k best : Lab) : Bool :=
+  match u, k, best with
+  | .num u, .num k, .num b => decide ((k - u) * (k - u) < (b - u) * (b - u))
+  | _, _, _ => false
+
+def nearLab {β : Type} (d : Dict Lab β) (u : Lab) : Lab := nearest labCloser d u
+def nearNat (d : Dict Nat Lab) (u : Nat) : Nat :=
+  nearest (fun u k best => decide (((k : Int) - u).natAbs < ((best : Int) - u).natAbs)) d u
+
+/-- `perm` (closest=False) and `permc` (closest=True) -/
+def permStep (closest : Bool) (kind y lin q : String) : String :=
     match parseNats? lin with
     | none => "bad-op"
     | some lin =>
@@ -72,9 +81,10 @@ def step : List String → String
           | .error e => e.show
           | .ok fwd =>
             let inv := getFctInv fwd
-            let qT := transformLabels fwd q
+            let qT := if closest then transformLabelsC nearLab fwd q else transformLabels fwd q
             let back := match qT with
-              | .ok t => showE (showList showOptLab) (transformLabels inv t)
+              | .ok t => showE (showList showOptLab)
+                  (if closest then transformLabelsC nearNat inv t else transformLabels inv t)
               | .error _ => "-"
             s!"{showFwd fwd}|{showE (showList showOptNat) qT}|{showInv inv}|{back}"
         | _, _ => "bad-op"
@@ -85,13 +95,21 @@ def step : List String → String
           | .error e => e.show
           | .ok fwd =>
             let inv := getFctInv fwd
-            let qT := transformPlain fwd q
+            let qT := if closest then transformPlainC nearLab fwd q else transformPlain fwd q
             let back := match qT with
-              | .ok t => showE (showList Lab.show) (transformPlain inv t)
+              | .ok t => showE (showList Lab.show)
+                  (if closest then transformPlainC nearNat inv t else transformPlain inv t)
               | .error _ => "-"
             s!"{showFwd fwd}|{showE showNats qT}|{showInv inv}|{back}"
         | _, _ => "bad-op"
       else "bad-op"
+
+def step : List String → String
+  | ["table"] => ";".intercalate (Gen.C13.table.map (showEntry Gen.C13.table))
+  -- perm F <y> <lin> <q>: float arrays (NaN allowed); perm P <y> <lin> <q>: integer / string arrays
+  | ["perm", kind, y, lin, q] => permStep false kind y lin q
+  -- the same with closest=True (the transformer and the one returned by get_fct_inv)
+  | ["permc", kind, y, lin, q] => permStep true kind y lin q
   -- clf <ys> <lin> <inner classes_> <inner predict> <inner predict_proba (opaque cells)>
   | ["clf", ys, lin, icls, ipred, iproba] =>
     match parseList? parseLab? ys, parseNats? lin, parseNats? icls, parseNats? ipred,
